@@ -16,6 +16,15 @@
 (*   blinded path) that leave their set incomplete are frequent, and so are  *)
 (*   the events that cancel them before it completes (Tick = MPP timeout,    *)
 (*   CancelSet), followed by retries, SettleHodlInvoice and CancelInvoice.   *)
+(* Focus = "ampsets":  at least one AMP invoice; shards that complete the set *)
+(*   their circuit belongs to (and settle it) are frequent, and so are the     *)
+(*   events that meet an AMP invoice with settled and/or accepted sets:        *)
+(*   CancelInvoice, CancelSet for one set id, MPP timeouts, replays, shards    *)
+(*   that join a settled set.                                                  *)
+(* Focus = "icept":    the interceptor client answers: CancelSet or a modified *)
+(*   amount for first-time HTLCs, and - half of the replays - CancelSet and/or *)
+(*   a modified amount for an HTLC that is already recorded as accepted,       *)
+(*   settled or canceled.                                                      *)
 (*   Only the weights differ: every step is an InvoiceRegistry action.       *)
 EXTENDS InvoiceRegistry, Json
 CONSTANTS MaxLen, Focus
@@ -23,6 +32,13 @@ CONSTANTS MaxLen, Focus
 KindPool == IF Focus = "holdsets"
             THEN {<<"hold", "hold">>, <<"hold", "regular">>, <<"holdna", "hold">>, <<"hold", "holdna">>,
                   <<"regular", "hold">>, <<"holdna", "noaddr">>, <<"zeroamt", "hold">>}
+            ELSE IF Focus = "ampsets"
+            THEN {<<"amp", "amp">>, <<"amp", "regular">>, <<"regular", "amp">>, <<"amp", "keysend">>,
+                  <<"holdna", "amp">>, <<"amp", "noaddr">>}
+            ELSE IF Focus = "icept"
+            THEN {<<"regular", "hold">>, <<"noaddr", "holdna">>, <<"hold", "zeroamt">>, <<"keysend", "hold">>,
+                  <<"amp", "regular">>, <<"holdna", "amp">>, <<"keysend", "noaddr">>, <<"hold", "hold">>,
+                  <<"regular", "regular">>}
             ELSE
             {<<"regular", "hold">>, <<"regular", "regular">>, <<"noaddr", "holdna">>, <<"zeroamt", "regular">>,
              <<"amp", "regular">>, <<"amp", "amp">>, <<"keysend", "noaddr">>, <<"hold", "zeroamt">>,
@@ -31,9 +47,11 @@ KindPool == IF Focus = "holdsets"
 VARIABLE hist
 
 Ev(a, c, k, p) == [a |-> a, c |-> c, k |-> k, pl |-> p.pl, h |-> p.h, ad |-> p.ad, amt |-> p.amt, tot |-> p.tot,
-                   exp |-> p.exp, set |-> p.set, good |-> IF p.good THEN 1 ELSE 0, cs |-> IF p.cs THEN 1 ELSE 0,
+                   exp |-> p.exp, set |-> p.set, good |-> IF p.good THEN 1 ELSE 0, cs |-> IF p.cs THEN 1 ELSE 0, ma |-> p.ma,
                    ht |-> height, k1 |-> kinds[1], k2 |-> kinds[2], kp |-> kp]
-NoP == [pl |-> "none", h |-> 0, ad |-> 0, amt |-> 0, tot |-> 0, exp |-> 0, set |-> "none", good |-> TRUE, cs |-> FALSE]
+NoP == [pl |-> "none", h |-> 0, ad |-> 0, amt |-> 0, tot |-> 0, exp |-> 0, set |-> "none", good |-> TRUE, cs |-> FALSE, ma |-> 0]
+NoIc == [cs |-> FALSE, ma |-> 0]
+IcP(ic) == [NoP EXCEPT !.cs = ic.cs, !.ma = ic.ma]
 Rec(e) == hist' = Append(hist, e)
 
 \* parameters that pass the static checks of the invoice they aim at (built directly, not filtered out of Params)
@@ -69,6 +87,35 @@ DrawH(c) == LET r == RandomElement(1..20) IN
             ELSE IF r <= 16 THEN RandomElement(CsParams(c))
             ELSE Draw(c)
 
+\* Focus = "ampsets": good shards of the set circuit c belongs to, aimed at an open AMP invoice; a member of
+\* the two-shard set carries about half of the total, and a shard repeats the total its set already declares
+AmpShards(c) ==
+  LET ss == {x \in Sets : c \in Members(x)} IN
+  UNION {{P(c, "amp", 0, sk[2], a, t, height + Need(sk[2]), sk[1], TRUE)
+            : a \in (IF Cardinality(Members(sk[1])) > 1 THEN {V \div 2, V - 1} ELSE {V, V + 1}),
+              t \in (LET S == In(htlc, sk[2], sk[1], "accepted") IN
+                     IF S # {} THEN {htlc[d].tot : d \in S} ELSE {V, V + 1})}
+         : sk \in ss \X {x \in Inv : Kind(x) = "amp" /\ inv[x].st = "open"}}
+\* HTLCs of an AMP set id that has accepted HTLCs on its (open) invoice, the interceptor client answering CancelSet
+AmpCs(c) ==
+  {[x EXCEPT !.cs = TRUE] : x \in
+     {P(c, "amp", 0, sk[2], 2, V, height + Need(sk[2]), sk[1], c \in Members(sk[1]))
+        : sk \in {y \in Sets \X {x \in Inv : Kind(x) = "amp" /\ inv[x].st = "open"} : In(htlc, y[2], y[1], "accepted") # {}}}}
+\* 65% such a shard, 10% the interceptor client cancels a set (one with accepted HTLCs if there is one),
+\* 25% as in the general mix
+DrawA(c) == LET r == RandomElement(1..20) IN
+            IF r <= 13 THEN (IF AmpShards(c) # {} THEN RandomElement(AmpShards(c)) ELSE Draw(c))
+            ELSE IF r <= 15 THEN (IF AmpCs(c) # {} THEN RandomElement(AmpCs(c)) ELSE RandomElement(CsParams(c)))
+            ELSE Draw(c)
+\* Focus = "icept": 40% acceptable, 25% acceptable with the amount replaced by the interceptor client,
+\* 15% CancelSet, 20% anything (incl. modified amounts)
+DrawI(c) == LET r == RandomElement(1..20) IN
+            IF r <= 13 /\ Likely(c) = {} THEN RandomElement(Params(c) \cup MaParams(c))
+            ELSE IF r <= 8 THEN RandomElement(Likely(c))
+            ELSE IF r <= 13 THEN [RandomElement(Likely(c)) EXCEPT !.ma = RandomElement(Amts)]
+            ELSE IF r <= 16 THEN RandomElement(CsParams(c))
+            ELSE RandomElement(Params(c) \cup MaParams(c))
+
 GInit == /\ kinds \in KindPool
          /\ kp \in KeyPatterns
          /\ inv = [k \in Inv |-> InitInv(k)]
@@ -83,7 +130,7 @@ Coin(n) == RandomElement(1..n) = 1
 Free == {c \in C : htlc[c] = NoHtlc}
 GNextAll ==
             \/ \E c \in C : \E i \in 1..2 : \E p \in {Draw(c)} : Notify(p) /\ Rec(Ev("Notify", c, 0, p))
-            \/ \E c \in C : Coin(2) /\ Replay(c) /\ Rec(Ev("Replay", c, 0, NoP))
+            \/ \E c \in C : Coin(2) /\ Replay(c, NoIc) /\ Rec(Ev("Replay", c, 0, NoP))
             \/ \E k \in Inv : (inv[k].st = "accepted" \/ Coin(8)) /\ Settle(k) /\ Rec(Ev("Settle", 0, k, NoP))
             \/ \E k \in Inv : Coin(6) /\ Cancel(k) /\ Rec(Ev("Cancel", 0, k, NoP))
             \/ Coin(2) /\ Tick /\ Rec(Ev("Tick", 0, 0, NoP))
@@ -93,13 +140,37 @@ GNextAll ==
 GNextHold ==
             \/ Free # {} /\ \E c \in {RandomElement(Free)} : \E i \in 1..2 : \E p \in {DrawH(c)} :
                               Notify(p) /\ Rec(Ev("Notify", c, 0, p))
-            \/ \E c \in {RandomElement(C)} : Coin(2) /\ Replay(c) /\ Rec(Ev("Replay", c, 0, NoP))
+            \/ \E c \in {RandomElement(C)} : Coin(2) /\ Replay(c, NoIc) /\ Rec(Ev("Replay", c, 0, NoP))
             \/ \E k \in Inv : (inv[k].st = "accepted" \/ Coin(10)) /\ Settle(k) /\ Rec(Ev("Settle", 0, k, NoP))
             \/ \E k \in Inv : ((inv[k].st = "accepted" /\ Coin(2)) \/ Coin(10)) /\ Cancel(k) /\ Rec(Ev("Cancel", 0, k, NoP))
             \/ (timer # {} \/ Coin(6)) /\ Tick /\ Rec(Ev("Tick", 0, 0, NoP))
             \/ Coin(4) /\ Block /\ Rec(Ev("Block", 0, 0, NoP))
+\* AMP sets: an invoice with a settled set is canceled soon; replays carry an arbitrary interceptor answer
+SettledOn(k) == \E d \in C : htlc[d].k = k /\ htlc[d].st = "settled"
+GNextAmp ==
+            \/ Free # {} /\ \E c \in {RandomElement(Free)} : \E i \in 1..2 : \E p \in {DrawA(c)} :
+                              Notify(p) /\ Rec(Ev("Notify", c, 0, p))
+            \/ \E c \in {RandomElement(C)} : \E ic \in {RandomElement(IcAnswers)} :
+                  Coin(2) /\ Replay(c, ic) /\ Rec(Ev("Replay", c, 0, IcP(ic)))
+            \/ \E k \in Inv : Coin(12) /\ Settle(k) /\ Rec(Ev("Settle", 0, k, NoP))
+            \/ \E k \in Inv : ((SettledOn(k) /\ Coin(2)) \/ Coin(8)) /\ Cancel(k) /\ Rec(Ev("Cancel", 0, k, NoP))
+            \/ ((timer # {} /\ Coin(3)) \/ Coin(8)) /\ Tick /\ Rec(Ev("Tick", 0, 0, NoP))
+            \/ Coin(4) /\ Block /\ Rec(Ev("Block", 0, 0, NoP))
+\* interceptor: one new HTLC on one free circuit per step, one replay of a recorded circuit with a drawn answer
+GNextIcept ==
+            \/ Free # {} /\ \E c \in {RandomElement(Free)} : \E i \in 1..2 : \E p \in {DrawI(c)} :
+                              Notify(p) /\ Rec(Ev("Notify", c, 0, p))
+            \/ Recorded # {} /\ \E c \in {RandomElement(Recorded)} : \E ic \in {RandomElement(IcAnswers)} :
+                  Replay(c, ic) /\ Rec(Ev("Replay", c, 0, IcP(ic)))
+            \/ \E k \in Inv : ((inv[k].st = "accepted" /\ Coin(2)) \/ Coin(10)) /\ Settle(k) /\ Rec(Ev("Settle", 0, k, NoP))
+            \/ \E k \in Inv : Coin(8) /\ Cancel(k) /\ Rec(Ev("Cancel", 0, k, NoP))
+            \/ Coin(4) /\ Tick /\ Rec(Ev("Tick", 0, 0, NoP))
+            \/ Coin(4) /\ Block /\ Rec(Ev("Block", 0, 0, NoP))
 GNext == /\ Len(hist) < MaxLen
-         /\ IF Focus = "holdsets" THEN GNextHold ELSE GNextAll
+         /\ CASE Focus = "holdsets" -> GNextHold
+              [] Focus = "ampsets" -> GNextAmp
+              [] Focus = "icept" -> GNextIcept
+              [] OTHER -> GNextAll
 GSpec == GInit /\ [][GNext]_<<vars, hist>>
 
 Dump == (Len(hist) = MaxLen) =>
